@@ -17,6 +17,10 @@ CHECKS = {
   text="Effect (purity) analysis of the whole read path with a freshness lattice and interprocedural mutation summaries: no mutation site may have a possibly-document receiver; in the optional-match driver every document mutation is dominated by the no-match test and has one of the three tail-creation forms with the padding loop in linear normal form. Decides the structural necessary conditions for all inputs; the value-level frame condition is declined.",
   note="Trusted base: MUTATORS and FRESH_CALLS tables (which methods mutate, which calls return new objects); ConsolePrinter outside the closure.",
   technique="interprocedural effect/purity analysis with freshness lattice + guard dominance over the AST"),
+ "C02": dict(
+  text="Construction-site and call-site consistency of every coordinate tuple in the evaluator (node, parent, parentref, path, ancestry derived from one container/key pair; key text only through the escaping routine with the path's own separator), immutability of handed-out path/ancestry objects, and inclusion of the parser's base-state special characters in the escape alphabet. Decides these necessary conditions on every path of the code; uniqueness of re-resolution is declined.",
+  note="Trusted base: loop headers (enumerate/items/iteration) and subscripts give an element's key; YAMLPath '+' copies (checked).",
+  technique="construction-site / call-site consistency analysis (derivation of node from container+key, reaching definitions), mutation-site classification, partial evaluation of the parser per character"),
 }
 
 NOT_BUILT = "check not built yet (framework under construction; will be claimed at clause level per DESIGN.md)"
